@@ -80,10 +80,19 @@ fn run_scenario(sc: &Value, t: &mut Tracer) {
 	};
 	// decoder keeps ahead: a looping stream runs until its ring holds far more than the session consumes;
 	// a finite one until the thread has ended
+	// (a decoder that never gets there is not waited for again and again: after three stalls the wait is cut short;
+	//  the comparison with the static sound then shows what the stream is missing)
+	static STALLS: std::sync::atomic::AtomicUsize = std::sync::atomic::AtomicUsize::new(0);
+	let budget = if STALLS.load(Ordering::SeqCst) >= 3 { Duration::from_millis(60) } else { Duration::from_millis(2500) };
 	let t0 = Instant::now();
 	loop {
 		let done = if ls >= 0 { DEC_PUSHED.load(Ordering::SeqCst) >= 2000 } else { stats.dropped.load(Ordering::SeqCst) };
-		if done || t0.elapsed() > Duration::from_secs(5) {
+		if done {
+			break;
+		}
+		if t0.elapsed() > budget {
+			STALLS.fetch_add(1, Ordering::SeqCst);
+			t.ev(json!({"a": "stall", "ms": budget.as_millis() as u64}));
 			break;
 		}
 		std::thread::sleep(Duration::from_micros(200));
